@@ -2,19 +2,80 @@ package formatter
 
 import (
 	"bytes"
-	"regexp"
 	"strings"
 
 	"github.com/ysugimoto/falco/v2/ast"
 	"github.com/ysugimoto/falco/v2/config"
 )
 
-var multiLineFeedRegex = regexp.MustCompile(`\n{3,}`)
-var replace = "\n\n"
-
-// Replace over three line-feed characters to two characters
+// Replace over three line-feed characters to two characters.
+// The argument is formatted VCL code so that line-feeds inside string literals
+// and comments are a part of the token and must be kept as they are.
 func trimMultipleLineFeeds(lines string) string {
-	return multiLineFeedRegex.ReplaceAllString(lines, replace)
+	var buf strings.Builder
+	buf.Grow(len(lines))
+
+	// copy lines[i:end] as is and return the next index
+	keep := func(i, end int) int {
+		if end > len(lines) {
+			end = len(lines)
+		}
+		buf.WriteString(lines[i:end])
+		return end
+	}
+	// index of the first byte after the next term found from "from", or the end of the input
+	after := func(from int, term string) int {
+		if from > len(lines) {
+			return len(lines)
+		}
+		if n := strings.Index(lines[from:], term); n >= 0 {
+			return from + n + len(term)
+		}
+		return len(lines)
+	}
+
+	for i := 0; i < len(lines); {
+		switch {
+		case lines[i] == '#' || strings.HasPrefix(lines[i:], "//"): // line comment
+			if n := strings.IndexByte(lines[i:], '\n'); n >= 0 {
+				i = keep(i, i+n)
+			} else {
+				i = keep(i, len(lines))
+			}
+		case strings.HasPrefix(lines[i:], "/*"): // block comment
+			i = keep(i, after(i+2, "*/"))
+		case lines[i] == '"': // string
+			i = keep(i, after(i+1, "\""))
+		case lines[i] == '{': // block, or long string like {"..."} and {DELIMITER"..."DELIMITER}
+			n := i + 1
+			for n < len(lines) && isLongStringDelimiter(lines[n]) {
+				n++
+			}
+			if n < len(lines) && lines[n] == '"' {
+				i = keep(i, after(n+1, "\""+lines[i+1:n]+"}"))
+			} else {
+				i = keep(i, i+1)
+			}
+		case lines[i] == '\n':
+			n := i
+			for n < len(lines) && lines[n] == '\n' {
+				n++
+			}
+			if n-i > 2 {
+				buf.WriteString("\n\n")
+			} else {
+				buf.WriteString(lines[i:n])
+			}
+			i = n
+		default:
+			i = keep(i, i+1)
+		}
+	}
+	return buf.String()
+}
+
+func isLongStringDelimiter(b byte) bool {
+	return (b >= 'a' && b <= 'z') || (b >= 'A' && b <= 'Z') || (b >= '0' && b <= '9') || b == '_'
 }
 
 // Calculate indent strings from configuration
